@@ -36,7 +36,7 @@ import (
 
 // OmniStep is one step of a schedule.
 type OmniStep struct {
-	Kind string `json:"kind"` // grow | fork | heal | restart
+	Kind string `json:"kind"` // grow | grow-outage | fork | heal | restart
 	Log  int    `json:"log"`
 	Size uint64 `json:"size"`
 }
@@ -45,7 +45,10 @@ type OmniStep struct {
 type OmniCase struct {
 	Storage string     `json:"storage"` // mem | sqlfile
 	NTiles  int        `json:"ntiles"`  // number of tiles-type logs (log 0 is the sumdb-type log)
-	Steps   []OmniStep `json:"steps"`
+	// NoneAt k > 0: the configuration also lists a bastion-only log (Feeder: none), in
+	// front of polled log k-1 (k = NTiles+2: at the end). 0: no such entry.
+	NoneAt int        `json:"none_at,omitempty"`
+	Steps  []OmniStep `json:"steps"`
 }
 
 type stubLog struct {
@@ -56,6 +59,10 @@ type stubLog struct {
 	size    uint64
 	cpGets  int
 	served  uint64 // size of the checkpoint handed out last
+	// tilesDown: tile requests are answered 503 (the checkpoint is still served)
+	tilesDown bool
+	// ext: extension lines of the published checkpoint (tiles-type logs only)
+	ext []string
 	badReqs []string
 }
 
@@ -97,6 +104,10 @@ func (s *stubLogs) ServeHTTP(w http.ResponseWriter, r *http.Request) {
 			_, _ = w.Write(vlib.Note(text, l.key.SigLine(text)))
 			return
 		}
+		if l.tilesDown {
+			http.Error(w, "tiles unavailable", http.StatusServiceUnavailable)
+			return
+		}
 		tile, err := tlog.ParseTilePath(p)
 		if err != nil || tile.H != 8 || tile.L < 0 {
 			l.badReqs = append(l.badReqs, r.URL.Path)
@@ -117,8 +128,12 @@ func (s *stubLogs) ServeHTTP(w http.ResponseWriter, r *http.Request) {
 		if p == "checkpoint" {
 			l.cpGets++
 			l.served = l.size
-			text := vlib.CheckpointText(l.origin, l.size, root[:], nil)
+			text := vlib.CheckpointText(l.origin, l.size, root[:], l.ext)
 			_, _ = w.Write(vlib.Note(text, l.key.SigLine(text)))
+			return
+		}
+		if l.tilesDown {
+			http.Error(w, "tiles unavailable", http.StatusServiceUnavailable)
 			return
 		}
 		m := tilesPathRE.FindStringSubmatch(p)
@@ -176,8 +191,17 @@ func runOmni(c *OmniCase) (bool, []string, error) {
 	defer srv.Close()
 	var y strings.Builder
 	y.WriteString("Logs:\n")
+	noneEntry := func() {
+		fmt.Fprintf(&y, "  - Origin: bastion-only.example/log\n    URL: %s/unpolled\n    PublicKey: %s\n    Feeder: none\n", srv.URL, vlib.NewKey("bastiononly.example", "omni-none").VKey())
+	}
 	for i, l := range stubs.logs {
+		if c.NoneAt == i+1 {
+			noneEntry()
+		}
 		fmt.Fprintf(&y, "  - Origin: %s\n    URL: %s/log%d\n    PublicKey: %s\n    Feeder: %s\n", l.origin, srv.URL, i, l.key.VKey(), l.kind)
+	}
+	if c.NoneAt > len(stubs.logs) {
+		noneEntry()
 	}
 	saved := ConfigLogs
 	ConfigLogs = []byte(y.String())
@@ -320,11 +344,11 @@ func runOmni(c *OmniCase) (bool, []string, error) {
 	honest := map[int]*vlib.Branch{}  // the branch a forked log left
 	lastWitnessed := map[int]string{} // what the witness served for a log when it forked
 	var classes []string
-	growths, crossed, restarts, forks, heals := 0, false, 0, 0, 0
+	growths, crossed, restarts, forks, heals, outages := 0, false, 0, 0, 0, 0
 	for si, st := range c.Steps {
 		what := fmt.Sprintf("step %d (%s log %d size %d)", si, st.Kind, st.Log, st.Size)
 		switch st.Kind {
-		case "grow":
+		case "grow", "grow-outage":
 			if forked[st.Log] {
 				continue // the log left its history for good
 			}
@@ -335,8 +359,23 @@ func runOmni(c *OmniCase) (bool, []string, error) {
 				stubs.mu.Unlock()
 				continue
 			}
+			// grow-outage: the new checkpoint is published while the log's tiles cannot be
+			// read (503) for three polls, i.e. at least one whole feed cycle fails after the
+			// checkpoint was fetched; then the tiles come back and the log does NOT grow again
+			outage := st.Kind == "grow-outage" && old > 0
+			l.tilesDown = outage
+			base := l.cpGets
 			l.size = st.Size
 			stubs.mu.Unlock()
+			if outage {
+				for dl := time.Now().Add(30 * time.Second); cpGets(st.Log) < base+3 && time.Now().Before(dl); {
+					time.Sleep(20 * time.Millisecond)
+				}
+				stubs.mu.Lock()
+				l.tilesDown = false
+				stubs.mu.Unlock()
+				outages++
+			}
 			growths++
 			if old/256 != st.Size/256 {
 				crossed = true
@@ -482,10 +521,10 @@ func runOmni(c *OmniCase) (bool, []string, error) {
 	}
 	run = nil
 	_ = lastWitnessed
-	return (growths >= 2 && crossed) || restarts > 0 || forks > 0 || heals > 0, classes, nil
+	return (growths >= 2 && crossed) || restarts > 0 || forks > 0 || heals > 0 || outages > 0, classes, nil
 }
 
-const ruleC14 = "omniwitness.Main started from a generated YAML configuration (one sumdb-type log, 1-3 tiles-type logs served by in-process stub servers over loopback), polling every 250ms, mem or file-backed SQLite, real listener; growth schedules over sizes crossing tile boundaries, restarts on the same database, switches to a forked history and back to the witnessed one at the fork's size; after each growth the served checkpoint must become the published one, fully cosigned, within 60s; after a fork has been polled 4 more times the served checkpoint is still the witnessed one; non-trivial = schedule with >=2 growth steps one of which crosses a tile boundary, or a restart, or a fork, or a return from a fork; distinct by case hash"
+const ruleC14 = "omniwitness.Main started from a generated YAML configuration (one sumdb-type log, 1-3 tiles-type logs served by in-process stub servers over loopback; in half of the cases also a bastion-only entry with Feeder none somewhere in the list), polling every 250ms, mem or file-backed SQLite, real listener; growth schedules over sizes crossing tile boundaries, restarts on the same database, switches to a forked history and back to the witnessed one at the fork's size, growth published while the log's tiles are unreadable for three polls; after each growth the served checkpoint must become the published one, fully cosigned, within 60s; after a fork has been polled 4 more times the served checkpoint is still the witnessed one; non-trivial = schedule with >=2 growth steps one of which crosses a tile boundary, or a restart, or a fork, or a return from a fork, or a tile outage; distinct by case hash"
 
 var omniSizes = []uint64{1, 2, 3, 4, 5, 17, 255, 256, 257, 300, 511, 512, 513, 1000, 65535, 65536, 65537, 70000, 255999, 256001, 256100, 256255, 256257}
 
@@ -498,6 +537,9 @@ func TestC14(t *testing.T) {
 	st := vlib.StatsFor("C14", "main", ruleC14)
 	rapid.Check(t, func(rt *rapid.T) {
 		c := &OmniCase{Storage: rapid.SampledFrom([]string{"mem", "sqlfile", "sqlfile"}).Draw(rt, "storage"), NTiles: rapid.IntRange(1, 3).Draw(rt, "ntiles")}
+		if rapid.Bool().Draw(rt, "withnone") {
+			c.NoneAt = rapid.IntRange(1, c.NTiles+2).Draw(rt, "noneat")
+		}
 		nsteps := rapid.IntRange(3, 8).Draw(rt, "nsteps")
 		cur := make([]uint64, c.NTiles+1)
 		forkedGen := make([]bool, c.NTiles+1)
@@ -509,6 +551,9 @@ func TestC14(t *testing.T) {
 				forkedGen[s.Log] = false
 			case k < 6:
 				s.Kind = "grow"
+				if vlib.Pct(rt, 25, "outage") {
+					s.Kind = "grow-outage"
+				}
 				if rapid.Bool().Draw(rt, "edge") {
 					s.Size = rapid.SampledFrom(omniSizes).Draw(rt, "size")
 				} else {
@@ -553,6 +598,8 @@ func TestC14Fixed(t *testing.T) {
 		{Storage: "sqlfile", NTiles: 1, Steps: []OmniStep{{Kind: "grow", Log: 0, Size: 300}, {Kind: "grow", Log: 1, Size: 5}, {Kind: "fork", Log: 0, Size: 400}, {Kind: "grow", Log: 1, Size: 9}, {Kind: "restart"}, {Kind: "grow", Log: 1, Size: 300}}},
 		{Storage: "sqlfile", NTiles: 1, Steps: []OmniStep{{Kind: "grow", Log: 1, Size: 40}, {Kind: "grow", Log: 0, Size: 7}, {Kind: "fork", Log: 1, Size: 40}, {Kind: "grow", Log: 0, Size: 12}}},
 		{Storage: "mem", NTiles: 1, Steps: []OmniStep{{Kind: "grow", Log: 1, Size: 300}, {Kind: "grow", Log: 0, Size: 300}, {Kind: "fork", Log: 1, Size: 400}, {Kind: "fork", Log: 0, Size: 400}, {Kind: "heal", Log: 1}, {Kind: "heal", Log: 0}, {Kind: "grow", Log: 1, Size: 450}, {Kind: "grow", Log: 0, Size: 450}}},
+		{Storage: "mem", NTiles: 1, Steps: []OmniStep{{Kind: "grow", Log: 0, Size: 10}, {Kind: "grow", Log: 1, Size: 10}, {Kind: "grow-outage", Log: 0, Size: 20}, {Kind: "grow-outage", Log: 1, Size: 20}, {Kind: "grow", Log: 0, Size: 21}}},
+		{Storage: "mem", NTiles: 2, NoneAt: 2, Steps: []OmniStep{{Kind: "grow", Log: 0, Size: 3}, {Kind: "grow", Log: 1, Size: 4}, {Kind: "grow", Log: 2, Size: 5}, {Kind: "grow", Log: 1, Size: 9}, {Kind: "grow", Log: 2, Size: 300}}},
 		{Storage: "mem", NTiles: 1, Steps: []OmniStep{{Kind: "grow", Log: 0, Size: 255900}, {Kind: "grow", Log: 1, Size: 255900}, {Kind: "grow", Log: 0, Size: 256100}, {Kind: "grow", Log: 1, Size: 256100}}},
 		{Storage: "mem", NTiles: 1, Steps: []OmniStep{{Kind: "grow", Log: 0, Size: 255}, {Kind: "grow", Log: 1, Size: 255}, {Kind: "grow", Log: 0, Size: 257}, {Kind: "grow", Log: 1, Size: 257}, {Kind: "grow", Log: 0, Size: 65535}, {Kind: "grow", Log: 1, Size: 65535}, {Kind: "grow", Log: 0, Size: 65537}, {Kind: "grow", Log: 1, Size: 65537}}},
 	} {
